@@ -1,167 +1,12 @@
-import PenneModel.Scope.Vars
 /-
   C05 — no variable is used out of scope, shadowed, or with its declaration skipped.
-  Property theorems (partial: see DESIGN.md §4 C05 for what is proved and what is only
-  checked by the three-way correspondence run).
+
+  The property theorems live next to their lemmas:
+  * Scope/VarsLemmas.lean — decision logic of one use / one declaration (`use_undefined_iff`,
+    `use_skipped_iff`, `use_ok_iff`, `declare_clash_iff`) and block scoping for all bodies
+    (`goStmt_stack`, `block_scoped`);
+  * Scope/VarsSkip.lean — `skip_detected`: from any state with a pending `goto l`, through any
+    statements, a variable declared before `l:` and used after it is always rejected.
+  partial: the converse of `skip_detected` is checked by the three-way correspondence only.
 -/
-namespace Vars
-
-/-! ### Decision logic of a single use / declaration (stated outright) -/
-
-/-- E402 is raised exactly when the name is on no layer of the stack. -/
-theorem use_undefined_iff (st : St) (n : Name) :
-    (useVar st n).2 = [402] ↔ lookup st.stack n = none := by
-  unfold useVar
-  cases h : lookup st.stack n with
-  | none => simp
-  | some id => by_cases hp : id ∈ st.pruned <;> simp [hp]
-
-/-- E482 is raised exactly when the name resolves to a declaration that a jump may have skipped;
-    the declaration is then poisoned, so that it is reported once per pruning. -/
-theorem use_skipped_iff (st : St) (n : Name) :
-    (useVar st n).2 = [482] ↔ ∃ id, lookup st.stack n = some id ∧ id ∈ st.pruned := by
-  unfold useVar
-  cases h : lookup st.stack n with
-  | none => simp
-  | some id => by_cases hp : id ∈ st.pruned <;> simp [hp]
-
-/-- a use raises nothing exactly when it resolves to a declaration that is not pruned -/
-theorem use_ok_iff (st : St) (n : Name) :
-    (useVar st n).2 = [] ↔ ∃ id, lookup st.stack n = some id ∧ id ∉ st.pruned := by
-  unfold useVar
-  cases h : lookup st.stack n with
-  | none => simp
-  | some id => by_cases hp : id ∈ st.pruned <;> simp [hp]
-
-/-- a declaration is a duplicate exactly when its name is visible on any layer (constants and
-    parameters included): no shadowing -/
-theorem declare_clash_iff (st : St) (n : Name) (dup : Code) :
-    (declareVar st n dup).2 = [dup] ↔ (lookup st.stack n).isSome = true := by
-  unfold declareVar
-  cases h : (lookup st.stack n).isSome <;> simp
-
-/-! ### Block scoping: what a statement may do to the variable stack -/
-
-theorem useVar_stack (st : St) (n : Name) : (useVar st n).1.stack = st.stack := by
-  unfold useVar
-  cases h : lookup st.stack n with
-  | none => rfl
-  | some id => by_cases hp : id ∈ st.pruned <;> simp [hp]
-
-theorem useVars_stack (st : St) (ns : List Name) : (useVars st ns).1.stack = st.stack := by
-  induction ns generalizing st with
-  | nil => rfl
-  | cons n ns ih => simp [useVars, ih, useVar_stack]
-
-theorem atGoto_stack (st : St) (l : Name) : (atGoto st l).stack = st.stack := by
-  unfold atGoto; split <;> rfl
-
-theorem atLabel_stack (st : St) (l : Name) : (atLabel st l).stack = st.stack := by
-  unfold atLabel
-  split
-  · rfl
-  · split <;> rfl
-
-/-- extend the innermost layer -/
-def addLast : List (List (Name × VarId)) → List (Name × VarId) → List (List (Name × VarId))
-  | [], ps => [ps]
-  | [l], ps => [l ++ ps]
-  | l :: ls, ps => l :: addLast ls ps
-
-theorem pushLayer_eq (stk : List (List (Name × VarId))) (p : Name × VarId) :
-    pushLayer stk p = addLast stk [p] := by
-  induction stk with
-  | nil => rfl
-  | cons l rest ih => cases rest with
-    | nil => rfl
-    | cons l' rest' => simp only [pushLayer, addLast, ih]
-
-theorem addLast_nil (stk : List (List (Name × VarId))) (h : stk ≠ []) : addLast stk [] = stk := by
-  induction stk with
-  | nil => exact absurd rfl h
-  | cons l rest ih => cases rest with
-    | nil => simp [addLast]
-    | cons l' rest' => simp only [addLast]; rw [ih (by simp)]
-
-theorem addLast_ne_nil (stk : List (List (Name × VarId))) (a) : addLast stk a ≠ [] := by
-  cases stk with
-  | nil => simp [addLast]
-  | cons l rest => cases rest <;> simp [addLast]
-
-theorem addLast_addLast (stk : List (List (Name × VarId))) (h : stk ≠ []) (a b) :
-    addLast (addLast stk a) b = addLast stk (a ++ b) := by
-  induction stk with
-  | nil => exact absurd rfl h
-  | cons l rest ih => cases rest with
-    | nil => simp [addLast]
-    | cons l' rest' =>
-      simp only [addLast]
-      have := ih (by simp)
-      cases h' : addLast (l' :: rest') a with
-      | nil => exact absurd h' (addLast_ne_nil _ _)
-      | cons x xs => rw [h'] at this; simp only [addLast]; rw [this]
-
-theorem dropLast_addLast_snoc (stk : List (List (Name × VarId))) (a) :
-    (addLast (stk ++ [[]]) a).dropLast = stk := by
-  induction stk with
-  | nil => simp [addLast]
-  | cons l rest ih => cases rest with
-    | nil => simp [addLast]
-    | cons l' rest' =>
-      simp only [List.cons_append, addLast] at ih ⊢
-      cases h' : addLast (l' :: (rest' ++ [[]])) a with
-      | nil => exact absurd h' (addLast_ne_nil _ _)
-      | cons x xs => rw [h'] at ih; simp [List.dropLast, ih]
-
-mutual
-/-- every statement only ever *appends to the innermost layer*: enclosing layers are untouched and the
-    stack depth is restored -/
-theorem goStmt_stack (s : Stmt) (st : St) (h : st.stack ≠ []) :
-    ∃ added, (goStmt st s).1.stack = addLast st.stack added ∧ (∀ ss, s = .block ss → added = []) := by
-  cases s with
-  | decl v us =>
-    refine ⟨[(v, (useVars st us).1.nextId)], ?_, by simp⟩
-    simp [goStmt, declareVar, useVars_stack, pushLayer_eq]
-  | use vs => exact ⟨[], by simp [goStmt, useVars_stack, addLast_nil _ h], by simp⟩
-  | loop => exact ⟨[], by simp [goStmt, addLast_nil _ h], by simp⟩
-  | goto l => exact ⟨[], by simp [goStmt, atGoto_stack, addLast_nil _ h], by simp⟩
-  | label l => exact ⟨[], by simp [goStmt, atLabel_stack, addLast_nil _ h], by simp⟩
-  | ifThen c t =>
-    obtain ⟨a, ha, _⟩ := goStmt_stack t (useVars st c).1 (by rw [useVars_stack]; exact h)
-    exact ⟨a, by simp [goStmt, ha, useVars_stack], by simp⟩
-  | ifElse c t e =>
-    obtain ⟨a, ha, _⟩ := goStmt_stack t (useVars st c).1 (by rw [useVars_stack]; exact h)
-    obtain ⟨b, hb, _⟩ := goStmt_stack e (goStmt (useVars st c).1 t).1 (by rw [ha]; exact addLast_ne_nil _ _)
-    refine ⟨a ++ b, ?_, by simp⟩
-    simp only [goStmt]
-    rw [hb, ha, useVars_stack, addLast_addLast _ h]
-  | block ss =>
-    obtain ⟨a, ha⟩ := goList_stack ss { st with stack := st.stack ++ [[]] } (by simp)
-    refine ⟨[], ?_, by simp⟩
-    simp only [goStmt]
-    rw [ha]
-    simp [dropLast_addLast_snoc, addLast_nil _ h]
-theorem goList_stack (ss : Stmts) (st : St) (h : st.stack ≠ []) :
-    ∃ added, (goList st ss).1.stack = addLast st.stack added := by
-  cases ss with
-  | nil => exact ⟨[], by simp [goList, addLast_nil _ h]⟩
-  | cons s ss =>
-    obtain ⟨a, ha, _⟩ := goStmt_stack s st h
-    obtain ⟨b, hb⟩ := goList_stack ss (goStmt st s).1 (by rw [ha]; exact addLast_ne_nil _ _)
-    exact ⟨a ++ b, by simp only [goList]; rw [hb, ha, addLast_addLast _ h]⟩
-end
-
-/-- **C05, block scoping.**  Whatever a braced block declares is gone after the block: the variable
-    stack after the block statement is the stack before it, for every block and every state. -/
-theorem block_scoped (ss : Stmts) (st : St) (h : st.stack ≠ []) :
-    (goStmt st (.block ss)).1.stack = st.stack := by
-  obtain ⟨a, ha, hb⟩ := goStmt_stack (.block ss) st h
-  rw [ha, hb ss rfl, addLast_nil _ h]
-
-/-- non-vacuity / regression example: the documented E482 shape and its harmless variant -/
-example : goFunction [] [] (.cons (.goto 0) (.cons (.decl 1 []) (.cons (.label 0) (.cons (.use [1]) .nil)))) = [482] := by decide
-example : goFunction [] [] (.cons (.decl 1 []) (.cons (.goto 0) (.cons (.label 0) (.cons (.use [1]) .nil)))) = [] := by decide
-example : goFunction [] [] (.cons (.block (.cons (.decl 1 []) .nil)) (.cons (.use [1]) .nil)) = [402] := by decide
-example : goFunction [5] [3] (.cons (.decl 5 []) (.cons (.decl 3 []) .nil)) = [422, 422] := by decide
-
-end Vars
+import PenneModel.Scope.VarsSkip
